@@ -16,6 +16,7 @@ from zoneinfo import ZoneInfo
 import numpy as np
 
 import core
+import vendors
 from core import rj
 
 RULE = ("(a) seeded (time stamp, acquisition times, zone pair, single/double) tuples; (b) 4 readers x 4 host zones; distinct = "
@@ -183,9 +184,21 @@ def reader_case(ctx, name):
         ctx.fail(f"{name}: timestart <= time <= timeend violated", dict(op="reader", reader=name))
 
 
+def synthesised_cases(ctx):
+    """(c) file sets synthesised from the vendor templates with per-channel acquisition times (forward != backward): the readers
+    must hand the acquisition times recorded for the measurement's own channels to coords_time"""
+    from props import c11
+    for _ in range(2 if ctx.quick else 12):
+        for variant in vendors.SILIXA:
+            c11.silixa_case(ctx, ctx.rng, variant, mode="time")
+        for variant in vendors.SENSORNET:
+            c11.sensornet_case(ctx, ctx.rng, variant, mode="time")
+
+
 def run(ctx):
     for _ in range(300 if ctx.quick else 5000):
         direct_case(ctx, ctx.rng)
+    synthesised_cases(ctx)
     from concurrent.futures import ThreadPoolExecutor
     with ThreadPoolExecutor(5) as ex:
         list(ex.map(lambda n: reader_case(ctx, n), list(READERS)))
